@@ -162,7 +162,7 @@ impl<'a> ChainVisitor for Build<'a> {
                     let raw = T::gen(rng);
                     if let Ok(bytes) = codec::ser_bytes(fmt, &Wrap(&raw)) {
                         let (rplan, tail) = benign_r(rng);
-                        break Source::Deser { fmt, api: *rng.pick(&[Api::Reader, Api::Slice, Api::Str]), bytes_hex: hex(&bytes), rplan, tail };
+                        break Source::Deser { fmt, api: *rng.pick(&[Api::Reader, Api::Slice, Api::Str, Api::Value]), bytes_hex: hex(&bytes), rplan, tail };
                     }
                 }
                 5 if T::HAS_ARBITRARY => {
@@ -205,7 +205,7 @@ impl<'a> ChainVisitor for Build<'a> {
                             HopKind::DisplayTryNewViaInnerParse
                         }
                     }
-                    _ => HopKind::SerDe { fmt: *rng.pick(&Format::ALL), api: *rng.pick(&[Api::Reader, Api::Reader, Api::Slice, Api::Str]) },
+                    _ => HopKind::SerDe { fmt: *rng.pick(&Format::ALL), api: *rng.pick(&[Api::Reader, Api::Reader, Api::Slice, Api::Str, Api::Value]) },
                 };
                 break k;
             };
@@ -361,7 +361,10 @@ fn do_hop<T: ChainT>(v: &T, hop: &Hop, out: &mut Out) -> HopOutcome<T> {
                     codec::ser_bytes(fmt, &inner).ok()
                 });
                 let Some(inner_bytes) = pre else { return HopOutcome::Skipped("format_cannot_encode_inner") };
-                match codec::de_bytes::<T::Inner>(fmt, Api::Slice, &inner_bytes) {
+                // ... through the same entry API as the hop (serde_json::Value, for one, cannot
+                // hold integers beyond 64 bits: such an inner value does not round-trip there).
+                let pre_api = if api == Api::Reader { Api::Slice } else { api };
+                match codec::de_bytes::<T::Inner>(fmt, pre_api, &inner_bytes) {
                     Ok(j) if j.repr() == inner.repr() => {}
                     _ => return HopOutcome::Skipped("inner_does_not_roundtrip_in_format"),
                 }
@@ -704,7 +707,7 @@ fn sweep(cfg: &Config, n: u64, keep_trace: bool, workers: usize) -> Stats {
 fn run_check(cfg: &Config) -> i32 {
     let t0 = Instant::now();
     let mut determinism_diverged = false;
-    let n: u64 = if cfg.thorough() { 12_000_000 } else { 800_000 };
+    let n: u64 = if cfg.thorough() { 40_000_000 } else { 800_000 };
     let stats = sweep(cfg, n, false, cfg.workers);
     let a = sweep(cfg, 2048, true, 3);
     let b = sweep(cfg, 2048, true, cfg.workers.max(2));
